@@ -109,7 +109,7 @@ def vnclog_cli_leg(ctx):
                 pass
         argv = ["vnclog", "-s", "h:1"] + (["--password-required"] if pwreq else []) + (["-p", with_p] if with_p is not None else []) + \
                (["--listen", "5999"] if listen else []) + [os.path.join(tmpd, "out.vdo")]
-        with mock.patch.object(cmd, "reactor", Rx()), mock.patch.object(cmd, "setup_logging", lambda o: None), mock.patch.object(sys, "argv", argv), \
+        with use_reactor(Rx()), mock.patch.object(cmd, "setup_logging", lambda o: None), mock.patch.object(sys, "argv", argv), \
                 mock.patch.object(sys, "stderr", io.StringIO()):
             try:
                 cmd.vnclog()
